@@ -2,7 +2,7 @@
 import types
 import z3
 
-from symx import core, values, driver
+from symx import core, values, driver, realproc
 from symx.values import SymInt
 from . import common
 
@@ -589,6 +589,26 @@ def on_crash(p, r, exc, acc):
     acc.sample(desc(p.witness()))
 
 
+# ------------------------------------------------------------------ after a rewrite the current source is rendered: cached sections
+INSTANTS = [(1000.1, 1000.6), (1000.1, 1001.2), (1000.95, 1001.0), (1000.4, 1000.41), (1000.2, 1003.7)]
+
+
+def h_starttime(p):
+    return dict(instants=INSTANTS[p.choose(len(INSTANTS), "fill_and_regeneration_instants")])
+
+
+def on_starttime(p, r, exc, acc):
+    got, want = realproc.call("starttime_probe", *r["instants"])
+    acc.replayed += 1
+    acc.tags["ran"] += 1
+    acc.vcs += 1
+    if got != want:
+        acc.candidate(kind="cached-section-survives-rewrite", input=dict(fill_at=r["instants"][0], regenerated_at=r["instants"][1]),
+                      detail="rendered %r, the current source gives %r" % (got, want))
+    acc.sample(dict(fill_at=r["instants"][0], regenerated_at=r["instants"][1], rendered=got))
+
+
+
 def make_replay(c):
     body = '''
 # replay of a module-file scenario against the real Template / file system
@@ -600,6 +620,13 @@ from mako.template import Template
 import mako.template as TP
 from mako import codegen
 bad = None
+if "fill_at" in CASE:
+    sys.path.insert(0, "/verif")
+    from props.realops import starttime_probe
+    got, want = starttime_probe(CASE["fill_at"], CASE["regenerated_at"])
+    print("cache filled by the old module at", CASE["fill_at"], ", module regenerated at", CASE["regenerated_at"], ":", repr(got), " expected", repr(want))
+    print("VIOLATED: after the rewrite the cached output of the old source is served" if got != want else "HOLDS")
+    sys.exit(1 if got != want else 0)
 # a scenario in which shutil.move had to copy needs the module directory on another file system than the system temp directory
 cross = any(str(x).startswith("copy") for x in CASE.get("env_calls", []))
 shm = "/dev/shm"
@@ -789,6 +816,8 @@ def run(check, tier):
              dict(crash_points="all environment calls of the write path"), ("crash", "completed")),
             ("C15-fault", h_crash("fault"), on_crash, "a symbolic environment call fails with OSError, then a later constructor runs",
              dict(fault_points="all environment calls"), ("fault", "completed"))]
+    jobs.append(("C15-starttime", h_starttime, on_starttime, "cached page with a backend honouring Cache.starttime: filled by the old module, "
+                 "then the module is regenerated within / after the same clock second", dict(instants=INSTANTS), ("ran",)))
     jobs.append(("C15-verifydir", h_verifydir, on_verifydir, "verify_directory with symbolic makedirs failures", dict(attempts=8), ("ran",)))
     jobs.append(("C15-loadrace", h_loadrace, on_loadrace, "two threads load the same module file: every schedule of the two imports",
                  dict(threads=2, scheduling_points="start and middle of each module execution"), ("ran",)))
